@@ -7,7 +7,7 @@ KEYS = {
     "C01": ["requests_completed", "reloads_checked", "law_chunk_init", "law_split", "mp_runs"],
     "C02": ["histories", "key_tables_compared", "data_requests_checked", "fuzzy_checks"],
     "C03": ["round_trips", "scheduled_pool_saves", "distinct_pool_schedules", "forked_saver_trips", "concurrent_big_loads", "failed_write_trips"],
-    "C04": ["faults_fired", "exception_faults", "death_faults", "midwrite_faults", "inline_faults_fired", "double_faults"],
+    "C04": ["faults_fired", "exception_faults", "death_faults", "midwrite_faults", "inline_faults_fired", "paced_inline_faults_fired", "double_faults"],
     "C05": ["scheduled_runs", "distinct_interleavings", "scheduling_points", "systematic_runs"],
     "C06": ["scheduled_runs", "faults_delivered", "closes_checked", "real_thread_runs", "process_pool_faults_delivered"],
     "C07": ["split", "split_multirun", "rejections", "rechunk_streams", "concat_three_pieces"],
